@@ -238,6 +238,13 @@ def rule_resample(ctx):
     xs, ys = ip[0].args[0], ip[0].args[1]
     idx_ok = xs.op == "param" and xs.a[0] == "times" and ys.op == "call" and call_name(ys) == "np.arange"
     yield ob(R, f, "multipitch.resample_multipitch:index-interp", idx_ok, "what is interpolated is the frame index over the estimate times")
+    # the interpolator is evaluated at the caller's target times themselves: clipping / rounding them first maps times
+    # outside the estimate's range onto its first / last frame instead of the empty one
+    uses = [c for c in s.calls() if c.fn is not None and c.fn.op == "call" and call_name(c.fn) == "scipy.interpolate.interp1d" and c.args]
+    if uses:
+        at = uses[0].args[0]
+        raw = at.op == "param" and at.a[0] == "target_times"
+        yield ob(R, f, "multipitch.resample_multipitch:query-times", raw, "the interpolator is evaluated at target_times as given" if raw else "the interpolator is evaluated at %s, not at target_times as given: reference times outside the estimate's range no longer reach the out-of-range sentinel" % tm.show(at, 3), node=uses[0].node)
     # sentinel: fill_value == len(frequencies) == index of the single empty array appended
     fill = kw.get("fill_value")
     main = [r for r in s.returns if r.term.op == "comp"]
